@@ -19,8 +19,8 @@ EXPLANATION = ('For all camera parameters, decides that each view matrix is the 
                'projection maps the near/far/fov/box planes to the documented clip values with the documented handedness.  Exhaustive over all constructors and both widths.')
 LEVEL_NOTE = 'Decides the mapping identities for all inputs (unit-length assumptions of the API are used only where the code itself assumes them). Trusted: rustc MIR, intrinsic table, rules/spec.py.'
 
-CONFIGS_QUICK = ['sse2', 'scalar']
-CONFIGS_THOROUGH = ['sse2', 'scalar', 'coresimd', 'neon', 'wasm32']
+CONFIGS_QUICK = ['sse2', 'sse2-fma', 'sse41', 'scalar', 'coresimd', 'neon', 'wasm32']
+CONFIGS_THOROUGH = ['sse2', 'sse2-fma', 'sse41', 'scalar', 'coresimd', 'neon', 'wasm32']
 # constructor -> (handedness sign of clip w: -1 rh / +1 lh, depth at near, depth at far, 'inf' when far is at infinity)
 PERSP = {'perspective_rh_gl': (-1, -1, 1, False), 'perspective_lh': (1, 0, 1, False), 'perspective_rh': (-1, 0, 1, False),
          'perspective_infinite_lh': (1, 0, 1, True), 'perspective_infinite_reverse_lh': (1, 1, 0, True),
